@@ -177,10 +177,30 @@ package policy
 //@   use node_sizes, node_list_children
 //@   ensures [C10] bounds: result1 == nil ==> intsInBounds(node)
 //@   ensures [C14,C09] shape: result1 == nil ==> nodeKind(node) == datamodel.Kind_List && len(result0) == listLen(node) && (forall j int :: 0 <= j && j < len(result0) ==> result0[j] != nil && stmtKind(result0[j]) == nodeStr(listElem(listElem(node, j), 0)))
+//@   ensures [C14] faithful: result1 == nil ==> (forall j int :: {result0[j]} 0 <= j && j < len(result0) ==> reprs(result0[j], listElem(node, j)))
+//@ // reprs(s, n): statement s is a faithful reading of the policy node n - exactly the tuple length its operator takes, the
+//@ // operator itself, the literal / pattern taken over unchanged, nested statements faithful readings of the nested nodes,
+//@ // one per element (nothing dropped, nothing added).  It is defined by structural recursion on s (reprsDef); a decoder
+//@ // names its result with it at its return points (statements are immutable once built).  Not covered: the selector
+//@ // (its text-to-segments relation is the selector parser's contract).
+//@ ghost func reprs(s Statement, n ipld.Node) bool
+//@ pure func isCmpOp(op string) bool = op == "==" || op == "<" || op == "<=" || op == ">" || op == ">="
+//@ pure func reprsDef(s Statement, n ipld.Node) bool =
+//@     s != nil && nodeKind(n) == datamodel.Kind_List && nodeKind(listElem(n, 0)) == datamodel.Kind_String && stmtKind(s) == nodeStr(listElem(n, 0))
+//@  && (s is equality || s is negation || s is connective || s is wildcard || s is quantifier)
+//@  && (s is negation ==> listLen(n) == 2 && reprs(s.(negation).statement, listElem(n, 1)))
+//@  && (s is connective ==> listLen(n) == 2 && (s.(connective).kind == "and" || s.(connective).kind == "or") && nodeKind(listElem(n, 1)) == datamodel.Kind_List
+//@        && len(s.(connective).statements) == listLen(listElem(n, 1))
+//@        && (forall j int :: {s.(connective).statements[j]} 0 <= j && j < len(s.(connective).statements) ==> reprs(s.(connective).statements[j], listElem(listElem(n, 1), j))))
+//@  && (s is equality ==> listLen(n) == 3 && isCmpOp(s.(equality).kind) && nodeKind(listElem(n, 1)) == datamodel.Kind_String && s.(equality).value == listElem(n, 2))
+//@  && (s is wildcard ==> listLen(n) == 3 && nodeKind(listElem(n, 1)) == datamodel.Kind_String && nodeKind(listElem(n, 2)) == datamodel.Kind_String && string(s.(wildcard).pattern) == nodeStr(listElem(n, 2)))
+//@  && (s is quantifier ==> listLen(n) == 3 && (s.(quantifier).kind == "all" || s.(quantifier).kind == "any") && nodeKind(listElem(n, 1)) == datamodel.Kind_String && reprs(s.(quantifier).statement, listElem(n, 2)))
 //@ // one statement: a list [op, ...] of 2 or 3 elements; the decoded statement carries exactly that operator
 //@ func statementFromIPLD
 //@   requires node != nil
 //@   use node_sizes, node_list_children, node_string_kind
+//@   retgiven result1 == nil ==> reprs(result0, node) == reprsDef(result0, node)
+//@   ensures [C14] faithful: result1 == nil ==> reprs(result0, node)
 //@   ensures [C14] shape: result1 == nil ==> result0 != nil && nodeKind(node) == datamodel.Kind_List && (listLen(node) == 2 || listLen(node) == 3) && stmtKind(result0) == nodeStr(listElem(node, 0))
 //@   ensures [C14] rejected: result1 != nil ==> result0 == nil
 //@   ensures [C09] total: true
@@ -189,10 +209,12 @@ package policy
 //@   requires node != nil
 //@   use node_sizes, node_list_children
 //@   ensures [C14] shape: result1 == nil ==> nodeKind(node) == datamodel.Kind_List && len(result0) == listLen(node) && (forall j int :: 0 <= j && j < len(result0) ==> result0[j] != nil && stmtKind(result0[j]) == nodeStr(listElem(listElem(node, j), 0)))
+//@   ensures [C14] faithful: result1 == nil ==> (forall j int :: {result0[j]} 0 <= j && j < len(result0) ==> reprs(result0[j], listElem(node, j)))
 //@   ensures [C14] rejected: result1 != nil ==> result0 == nil
 //@   ensures [C09] total: true
 //@   decreases nodeSize(node), 1
 //@   loop 0: invariant 0 <= i && i <= listLen(node) && nodeKind(node) == datamodel.Kind_List && len(res) == listLen(node) && fresh(res)
+//@   loop 0: invariant forall j int :: {res[j]} 0 <= j && j < i ==> reprs(res[j], listElem(node, j))
 //@   loop 0: invariant forall j int :: 0 <= j && j < i ==> res[j] != nil && stmtKind(res[j]) == nodeStr(listElem(listElem(node, j), 0))
 //@           decreases listLen(node) - i
 //@
